@@ -85,6 +85,8 @@ class Interp:
         self.max_depth = max_depth
         self.unmodelled = set()
         self.ref_syms = ["CS0", "MS0", "G0", "N0"]   # entry-state symbols: always coordinates of joins
+        self._splice_cache = {}
+        self.block_budget = 60000
         self.stats = {"blocks": 0, "calls_inlined": 0, "joins": 0, "entail": 0, "states": 0}
         self.variant_names = dict(ENUM_VARIANTS)
         for n, a in self.f.adts.items():
@@ -271,6 +273,7 @@ class Interp:
         if path and path[-1] in r.links and oid[0] != "L":
             par = self.load(st, oid, path[:-1]) if len(path) > 1 else st.store.get(oid)
             if par is not None and par[0] == "struct" and par[1] == r.entry:
+                self.on_link_store(st, oid, path, val)
                 return  # link stores into heap entries / the seal: the list shape is abstracted by the traversal model
         self._store_at(st, oid, path, val)
 
@@ -410,6 +413,78 @@ class Interp:
         st.store[u] = ("unk", next(self.ctr), "*?")
         return (u, ())
 
+    # ------------------------------------------------------------------ list ghosts (promotion / pending links)
+    def splice_role(self, body):
+        """is this body the list primitive that links a node between two neighbours (4 link stores through pointers)?"""
+        k = self._splice_cache.get(body.path)
+        if k is None:
+            eff = self.ctx.eff.direct.get(body.path, {})
+            n = sum(1 for (f, _b, _s, via) in eff.get("w_entry", []) if via and f in self.r.links)
+            from .cfg import cfg_of
+            k = (n == 4 and not body.is_closure and not cfg_of(body).loops() and not eff.get("table") and not eff.get("swap_table")
+                 and not eff.get("w_cache"))
+            self._splice_cache[body.path] = k
+        return k
+
+    def gset(self, st, name):
+        return st.store.get(("G", name), frozenset())
+
+    def gadd(self, st, name, x):
+        st.store[("G", name)] = self.gset(st, name) | frozenset([x])
+
+    def gdel(self, st, name, x):
+        st.store[("G", name)] = self.gset(st, name) - frozenset([x])
+
+    def pre_call(self, body, args, st, chain):
+        if self.splice_role(body) and args and args[0][0] == "ptr":
+            try:
+                ep = self.load(st, *self.resolve_ptr(st, args[0]))
+                raw = ep[2].get(self.r.EPTR_RAW) if ep[0] == "struct" else None
+                if raw is not None and raw[0] == "ptr":
+                    tgt = self.resolve_ptr(st, raw)[0]
+                    # linked next to the seal on the MRU side?  (prev = seal, next = seal's MRU link) -- recorded as promotion
+                    self.gadd(st, "promoted", tgt)
+                    self.gadd(st, "maypromoted", "yes")
+                    self.gdel(st, "unlinked", tgt)
+                    self.gdel(st, "pending", tgt)
+                    self.events.append(("promote", {"target": tgt, "chain": chain, "state": None}))
+                else:
+                    self.gadd(st, "maypromoted", "yes")
+            except Unsupported:
+                pass
+
+    def cache_tids(self, st):
+        """tids of the tables currently installed in cache objects"""
+        out = set()
+        for oid, v in st.store.items():
+            if isinstance(v, tuple) and v and v[0] == "struct" and v[1] == self.r.cache:
+                t = v[2].get(self.r.TABLE)
+                if t is not None and t[0] == "struct":
+                    out.add(t[2].get("#tid"))
+        return out
+
+    def on_link_store(self, st, oid, path, val):
+        """a store to a link field of heap memory (seal or an entry).  Ghost L2L: the link of a node that belongs to a cache
+        (its seal, or an entry of its installed table) now points to an entry of a table that no cache owns yet."""
+        tgt_obj = st.store.get(oid) if len(path) == 1 else self.load(st, oid, path[:-1])
+        if tgt_obj is None or tgt_obj[0] != "struct":
+            return
+        installed = self.cache_tids(st)
+        owner_is_cache = tgt_obj[2].get("#seal_of") is not None or (tgt_obj[2].get("#tid") in installed and tgt_obj[2].get("#tid") is not None)
+        if not owner_is_cache:
+            return
+        raw = val[2].get(self.r.EPTR_RAW) if (val[0] == "struct" and val[1] == self.r.eptr) else None
+        if raw is None or raw[0] != "ptr":
+            return
+        try:
+            pointee = st.store.get(self.resolve_ptr(st, raw)[0])
+        except Unsupported:
+            return
+        if pointee is not None and pointee[0] == "struct" and pointee[1] == self.r.entry:
+            ptid = pointee[2].get("#tid")
+            if ptid is not None and not (isinstance(ptid, tuple) and ptid and ptid[0] == "stale") and ptid not in installed:
+                self.gadd(st, "l2l", ptid)
+
     # ------------------------------------------------------------------ obligations
     def oblige(self, key, st, cons, desc, loc=None, chain=None):
         """record whether the state entails every constraint in cons (last evaluation of a key wins... but an
@@ -434,6 +509,7 @@ class Interp:
         if body.path in [c for c in chain]:
             raise Unsupported("recursion through %s" % body.path)
         self.stats["calls_inlined"] += 1
+        self.pre_call(body, args, st, chain)
         fid = next(self.fid)
         for i, a in enumerate(args):
             st.store[("L", fid, i + 1)] = a
@@ -653,7 +729,7 @@ class Frame:
             work.sort(key=lambda b: self.rpo_idx.get(b, 1 << 30))
             bb = work.pop(0)
             visits[bb] = visits.get(bb, 0) + 1
-            if visits[bb] > 40:
+            if visits[bb] > 14:
                 raise Unsupported("no fixpoint in %s bb%d" % (self.body.path, bb))
             states = ins.get(bb, [])
             out_edges = []
@@ -661,6 +737,8 @@ class Frame:
                 if not s.num.feasible():
                     continue
                 ip.stats["blocks"] += 1
+                if ip.stats["blocks"] > ip.block_budget:
+                    raise Unsupported("block budget exhausted (%d) in %s" % (ip.block_budget, self.body.path))
                 for (succ, s2, rv) in self.transfer(bb, s.fork()):
                     if succ is None:
                         rets.append((rv, s2))
@@ -1085,6 +1163,14 @@ class Joiner:
                 if oid in new.store and not self._leq_int(new.store[oid], vo):
                     return False
                 continue
+            if oid[0] == "G":
+                nv = new.store.get(oid, frozenset())
+                if oid[1] == "promoted":
+                    if not (vo <= nv):
+                        return False
+                elif not (nv <= vo):
+                    return False
+                continue
             if oid[0] not in ("L", "O", "R"):
                 continue      # heap objects are compared through the pointers that reach them
             if oid not in new.store:
@@ -1202,6 +1288,12 @@ class Joiner:
         self._depth = 0
         for oid in list(a.store):
             if oid in b.store:
+                if oid[0] == "G":
+                    continue
+                if oid[0] == "M":
+                    if a.store[oid] == b.store[oid]:
+                        out.store[oid] = a.store[oid]
+                    continue
                 if oid[0] in ("H", "F"):
                     va, vb = a.store[oid], b.store[oid]
                     if va == vb:
@@ -1214,6 +1306,18 @@ class Joiner:
                 out.store[oid] = self.jv(a.store[oid], b.store[oid], a, b)
             # objects known only on one side are dropped (they are unreachable from the common part or re-materialised)
         out.store.update(self._extra)
+        # ghost sets: rename object ids that were merged under a new object, then union (may) / intersect (must)
+        ren_a = {xa: n for (xa, xb), n in self._pmemo.items()}
+        ren_b = {xb: n for (xa, xb), n in self._pmemo.items()}
+        gkeys = set(k for k in a.store if k[0] == "G") | set(k for k in b.store if k[0] == "G")
+        for gk in gkeys:
+            va = frozenset(ren_a.get(x, x) for x in a.store.get(gk, frozenset()))
+            vb = frozenset(ren_b.get(x, x) for x in b.store.get(gk, frozenset()))
+            out.store[gk] = (va & vb) if gk[1] == "promoted" else (va | vb)
+        for fk in [k for k in a.store if k[0] == "F" and k in b.store]:
+            va, vb = a.store[fk], b.store[fk]
+            if va != vb and ren_a.get(va) is not None and ren_a.get(va) == ren_b.get(vb):
+                out.store[fk] = ren_a[va]
         # ---- constraints of the joined state
         na, nb = a.num, b.num
         defs_a = {s: la for (s, la, lb) in self.fresh}
@@ -1298,7 +1402,7 @@ class Joiner:
                 if isinstance(v, Lin):
                     add(v)
                 continue
-            if oid[0] == "F":
+            if oid[0] in ("F", "G", "M"):
                 continue
             rec(v, 0)
         return out[:40]
